@@ -401,11 +401,15 @@ def pd_DataFrame(I, data=None, columns=None, index=None, **kw):
     ns = [n for n in ns if n is not None]
     for n in ns[1:]:
         I.path.oblige("shape", f"DataFrame-columns#{I.path.ordinal('dfshape')}", ns[0] == n)
+    if index is not None and ns and hasattr(index, "n"):
+        I.path.oblige("shape", f"DataFrame-index#{I.path.ordinal('dfshape')}", ns[0] == index.n)
     return DataFrameV(cols, index)
 
 
 def pd_Series(I, data=None, index=None, **kw):
     _use("Series(index=, data=)")
+    if data is not None and index is not None and hasattr(data, "n") and hasattr(index, "n"):
+        I.path.oblige("shape", f"Series-index#{I.path.ordinal('sershape')}", data.n == index.n)
     return SeriesV(data, index, kw.get("name"))
 
 
